@@ -13,4 +13,19 @@ namespace Romea.Hidden.C03
 
 theorem hidden_state_as_recorded : Romea.Generated.C03.hiddenState = [] := by rfl
 
+/-- The names (not only the types) of what every translated function reads, carries through its loops and returns are those
+    the bridge theorems were written against: a function that now reads or writes ANOTHER member of the same type keeps its Lean
+    type, and a positional application in a bridge would keep checking. -/
+theorem signatures_as_recorded : Romea.Generated.C03.signatures = [
+    "EarthEllipsoid.EarthEllipsoid (A B) result: a', b', e', e2'",
+    "LambertConverter.computeIsometricLatitude (e latitude) result: ret",
+    "EPSILON (OfScientific.ofScientific 1 true 12)",
+    "LambertConverter.computeLatitude.loop1 (e isometricLatitude) carried: latitude",
+    "LambertConverter.computeLatitude (fuel e isometricLatitude) result: ret (none = fuel exhausted)",
+    "LambertConverter.computeGrandeNormal (a e latitude) result: ret",
+    "LambertConverter.computeProjectionParameters_secant (ellipsoid_a ellipsoid_e parameters_latitude0 parameters_latitude1 parameters_latitude2 parameters_longitude0 parameters_x0 parameters_y0) result: ret_c, ret_longitude0, ret_n, ret_xs, ret_ys",
+    "LambertConverter.computeProjectionParameters_tangent (ellipsoid_a ellipsoid_e parameters_k0 parameters_latitude0 parameters_longitude0 parameters_x0 parameters_y0) result: ret_c, ret_longitude0, ret_n, ret_xs, ret_ys",
+    "LambertConverter.toLambert (c_ e_ longitude0_ n_ wgs84Coordinates_latitude wgs84Coordinates_longitude xs_ ys_) result: ret_0, ret_1",
+    "LambertConverter.toWGS84 (fuel c_ e_ longitude0_ n_ position_0 position_1 xs_ ys_) result: ret_latitude, ret_longitude (none = fuel exhausted)"] := by rfl
+
 end Romea.Hidden.C03
